@@ -7,7 +7,7 @@ from ..core import hx
 PROOF_MODULE = "Nlmodel.Proofs.C14"
 PROOF_FILES = ["Nlmodel/Proofs/C14.lean", "Nlmodel/Model/Value.lean", "Nlmodel/Model/Float.lean"]
 THEOREM_FILE = PROOF_FILES[0]
-LEVEL_TEXT = ("Lean theorems about the builtins of the model (builtinCore, callBuiltin, formatPrint, shared by the machine model and the definitional semantics): a wrong argument count to anything but print is an argument error; the only error kinds are argument and type; conversion to the own type is the identity; the bool table; int(string(i)) = i for EVERY integer (decimal printer and parser are written out in the model and proved inverse); print replaces the first placeholder of the ORIGINAL format text by the first argument and continues with the remaining ones; without arguments the text is unchanged. The float<->text round trip is not proved (partial): the model implements shortest-round-trip printing and correctly rounded parsing as exact rational arithmetic, and both are compared with Rust std on every float of the run. The builtins are tied to builtins.rs by the complete cross product value shapes x builtins x arities 0-3 and print with 0-4 arguments x 0-4 placeholders x literal braces. EVERY BUILTIN ON THE MACHINE AS IN THE SEMANTICS (C14_builtin_agrees; C01 stage 5): related argument lists (any arity, any value kinds, nested and cyclic arrays) give related results, the same printed line, the same error kind. SESSION 7: lengte computed on the UTF-8 bytes as builtins.rs does (count of non-continuation bytes) is the number of characters for every text (C14_lengte_counts_characters_on_bytes).")
+LEVEL_TEXT = ("Lean theorems about the builtins of the model (builtinCore, callBuiltin, formatPrint, shared by the machine model and the definitional semantics): a wrong argument count to anything but print is an argument error; the only error kinds are argument and type; conversion to the own type is the identity; the bool table; int(string(i)) = i for EVERY integer (decimal printer and parser are written out in the model and proved inverse); print replaces the first placeholder of the ORIGINAL format text by the first argument and continues with the remaining ones; without arguments the text is unchanged. The model implements shortest-round-trip printing and correctly rounded parsing as exact rational arithmetic (the round trip is proved: see below), and both are compared with Rust std on every float of the run. The builtins are tied to builtins.rs by the complete cross product value shapes x builtins x arities 0-3 and print with 0-4 arguments x 0-4 placeholders x literal braces. EVERY BUILTIN ON THE MACHINE AS IN THE SEMANTICS (C14_builtin_agrees; C01 stage 5): related argument lists (any arity, any value kinds, nested and cyclic arrays) give related results, the same printed line, the same error kind. SESSION 7: lengte computed on the UTF-8 bytes as builtins.rs does (count of non-continuation bytes) is the number of characters for every text (C14_lengte_counts_characters_on_bytes).")
 LEVEL_NOTE = ("number -> text -> number for EVERY float is a theorem about the model's exact algorithms (C14_float_text_roundtrip: parseDec (toDecimal x) = x for every finite value, both zeros, both infinities; NaN reads back as NaN; C14_float_of_string_of_float through the builtins; 17 significant digits always suffice); that Rust std's f64 Display/FromStr compute the same texts and values is validated on the run's floats by the correspondence, not proved; str::trim's White_Space set is mirrored and compared exhaustively through the unicode table dump.")
 TECHNIQUE = "Lean 4 proof (builtin semantics, decimal round trip, print formatting) + complete shape x builtin x arity correspondence"
 RULE = ("complete cross product of ~70 value shapes x 7 builtins, arities 0-3 for every builtin, print with 0-4 arguments x format "
@@ -76,6 +76,8 @@ def run(res, tier, rng, table_diffs=()):
     progs += list(docs)
     from .. import gen2
     progs += gen2.inplace_then_builtin_programs()
+    progs += gen2.shrinking_text_programs()[::3]
+    progs += gen2.fresh_result_programs()
     expect.update(docs)
     # print formats
     fmts = ["", "{}", "{} {}", "a{}b{}c", "{}{}{}{}", "{", "}", "{ }", "}{", "{{}}", "{}}", "{{}", "100% {} é{}日"]
